@@ -91,6 +91,11 @@ impl Connector for LoadBalanceConnector {
         ensure!(!self.connectors.is_empty(), "connectors must not be empty");
         for n in &self.connectors {
             ensure!(
+                *n != self.name,
+                "loadbalance connector {} must not list itself",
+                n
+            );
+            ensure!(
                 state.connectors.contains_key(n),
                 "connector not defined: {}",
                 n
